@@ -113,6 +113,33 @@ def check_one(mido, specs, acc, via_file):
         if key is not None:
             acc.violation(f'{key}/{name}', f'{name} on tracks {specs}: {what}',
                           dict(case, via=name))
+    # history: merge, change one delta IN PLACE (same track and message
+    # objects), merge again - the second result must follow the edit
+    if any(tracks) and not acc.viol:
+        for name, fn in variants:
+            try:
+                fn()
+                victim = next(t for t in tracks if len(t))[0]
+                victim.time = victim.time + 3
+                exp2, total2 = expected(tracks)
+                res = fn()
+                now = 0
+                got = []
+                for m in res:
+                    now += m.time
+                    if m.type != 'end_of_track':
+                        got.append((now, sig_no_time(m)))
+                if got != exp2 or now != total2:
+                    acc.violation(f'stale-after-in-place-edit/{name}',
+                                  f'{name} on tracks {specs}: merged, first '
+                                  f'delta += 3 in place, merged again: events '
+                                  f'{got} total {now}, expected {exp2} total '
+                                  f'{total2}', dict(case, via=name))
+                victim.time = victim.time - 3
+            except Exception as e:
+                acc.violation(f'stale-probe-raises/{name}/{type(e).__name__}',
+                              f'{e!r}', dict(case, via=name))
+            acc.evals += 1
     multi = sum(1 for sp in specs if sp) >= 2 or any(
         k == 'eot' for sp in specs for k, _ in sp[:-1])
     if multi:
